@@ -4,3 +4,15 @@ package queues
 
 // VerifLen reads the length without a scheduling point.
 func (q *RingQueue) VerifLen() int64 { return q.len }
+
+// VerifClone deep-copies the queue (plain memory copy, no scheduling points).
+func (q *RingQueue) VerifClone() *RingQueue {
+	c := q.content
+	nb := &ringBuffer{buffer: append([]interface{}(nil), c.buffer...), head: c.head, tail: c.tail, mod: c.mod}
+	return &RingQueue{len: q.len, content: nb}
+}
+
+// VerifGeometry returns head, tail and capacity.
+func (q *RingQueue) VerifGeometry() (head, tail, mod int64) {
+	return q.content.head, q.content.tail, q.content.mod
+}
